@@ -647,7 +647,7 @@ def oracle_family(case):
 # ----------------------------------------------------------------------------- clauses
 
 CLAUSES = [
-    Clause('normal_exh', oracle_normal_exh, enumerate=g16.enum_normal, min_share={'nt': 0.3, 'hex4': 0.05},
+    Clause('normal_exh', oracle_normal_exh, enumerate=g16.enum_normal, min_share={'nt': 0.35, 'hex4': 0.08, 'rotated': 0.18},
            desc='EXHAUSTIVE, one case = one (h,k) row of 12-13 (thorough 20-21) planes in one cell: plane normal is the unit vector along '
                 'h a*+k b*+l c* (own reciprocal basis), same sense; n.[uvw] = (hu+kv+lw)/|g| for all 342 lattice vectors with |uvw|<=3 '
                 '(perpendicular exactly when the zone law holds); (hkil) = (hkl) in hexagonal cells'),
@@ -661,20 +661,21 @@ CLAUSES = [
            desc='EXHAUSTIVE, one case = one (h,k) row of triples and induced quadruples: reduce_indices = v/gcd (coprime, same sense), idempotent; '
                 'all_indices(maxindex, reduce) equals the set of all / all coprime non-zero triples'),
     Clause('random', oracle_random, g16.random_cases, quick=20000, thorough=300000,
-           min_share={'nt': 0.25, 'op_normal': 0.15, 'op_reduce': 0.1, 'shape_MN': 0.15, 'shape_0': 0.08, 'in_zone': 0.03,
-                      'refusal_nonhex': 0.02, 'four': 0.08, 'form_list': 0.15},
+           min_share={'nt': 0.25, 'op_normal': 0.18, 'op_reduce': 0.08, 'shape_MN': 0.15, 'shape_0': 0.09, 'in_zone': 0.03,
+                      'refusal_nonhex': 0.05, 'four': 0.1, 'form_list': 0.15, 'fam_monoclinic': 0.035, 'fam_rhombohedral': 0.035,
+                      'fam_triclinic': 0.08, 'fractional': 0.07},
            max_share={'refusal_nonhex': 0.25},
            desc='one operation per case (normal+zone law, vector, 3<->4, centring, reduce) on index arrays of leading shape (), (N,), (M,N), '
                 'indices up to 12, list/int/float input, random cells, 4-index input accepted exactly in hexagonal cells'),
     Clause('strings', oracle_strings, g16.string_cases, quick=6000, thorough=100000,
-           min_share={'nt': 0.4, 'fraction': 0.15, 'br_bare': 0.08, 'n4': 0.15},
+           min_share={'nt': 0.4, 'fraction': 0.2, 'br_bare': 0.09, 'br_{': 0.09, 'n4': 0.18},
            desc='index strings of the documented grammar parse to fraction x the integers shown'),
     Clause('strings_fuzz', oracle_fuzz, g16.fuzz_cases, quick=4000, thorough=150000,
-           min_share={'nt': 0.2, 'refused': 0.1, 'strict': 0.1},
+           min_share={'nt': 0.25, 'refused': 0.18, 'strict': 0.2, 'wide': 0.08, 'accepted_shown': 0.06},
            desc='random ASCII and mutated grammar strings: strict-grammar strings parse to what they show; others are refused cleanly '
                 '(ValueError, the two documented assertion messages, ZeroDivisionError) or return 3/4 floats equal to the numbers shown when a wider reading exists'),
     Clause('family', oracle_family, g16.family_cases, quick=4000, thorough=80000,
-           min_share={'nt': 0.4, 'rotated': 0.2, 'via_function': 0.2},
+           min_share={'nt': 0.45, 'rotated': 0.28, 'via_function': 0.2, 'fam_rhombohedral': 0.09, 'fam_monoclinic': 0.12, 'fam_cubic': 0.03},
            desc='Box.<family>(generic parameters), optionally rigidly rotated: identifyfamily() names that family and exactly that is<family>() predicate holds '
                 '(Box methods and the stand-alone functions)'),
 ]
